@@ -41,6 +41,10 @@ def spec_objects(tier):
         for bs in (0, 1):
             for st in ("RAM", "DISK"):
                 out.append(D.Config("TwoLevel", (period, bs, st, "maximum"), 0))
+    # beyond the interpreter's small-int cache (identity vs equality)
+    out.append(D.Config("TwoLevel", (129, 1, "RAM", "maximum"), 0))
+    out.append(D.Config("Multistage", (0, 4, "maximum"), 300))
+    out.append(D.Config("Mixed", (3, "RAM"), 257))
     for n in (1, 2, 3):
         out.append(D.Config("Multistage", (1, 0, "maximum"), n))
         out.append(D.Config("Mixed", (1, "DISK"), n))
@@ -52,10 +56,21 @@ def spec_objects(tier):
 
 
 def k_alphabet(cfg):
-    period = cfg.params[0] if cfg.cls == "TwoLevel" else 1
-    ks = [-1, 0] + list(range(1, 2 * period + 3)) + \
-        [sys.maxsize - 1, sys.maxsize, sys.maxsize + 1]
-    return ks
+    """finalize arguments: every side of every comparison in finalize(), in
+    the online loops and in the TwoLevel block arithmetic."""
+    edge = [-1, 0, sys.maxsize - 1, sys.maxsize, sys.maxsize + 1]
+    if cfg.cls == "TwoLevel":
+        p = cfg.params[0]
+        if p <= 4:
+            ks = list(range(1, 2 * p + 3))
+        else:
+            ks = sorted({1, 2, p - 1, p, p + 1, 2 * p - 1, 2 * p, 2 * p + 1,
+                         2 * p + 2, 257, 258})
+    elif cfg.cls in D.ONLINE:
+        ks = [1, 2, 3, 4, 257]
+    else:
+        ks = sorted({1, 2, 3, 4, cfg.N - 1, cfg.N, cfg.N + 1} - {0, -1})
+    return sorted(set(ks + edge))
 
 
 def stable(v, depth=0):
@@ -149,7 +164,7 @@ class Replayed:
                 self.told = a.n1
             self.outcomes.append(("action", repr(a)))
             return self.outcomes[-1]
-        k = ev[1]
+        k = int(str(ev[1]))      # fresh int object, never identical
         pre_max = s.max_n
         try:
             s.finalize(k)
